@@ -24,7 +24,7 @@ METHOD_MODELS = {}     # (type, name) -> model(I, self, args, kwargs)
 STR_METHODS = {}       # name -> model(I, s, args, kwargs)   (s: SymStr)
 ENGINE_TYPES = []      # classes whose instances are engine objects (called / attribute-accessed natively)
 
-MAX_SPLIT_PARTS = 12
+MAX_SPLIT_PARTS = 24
 MAX_INT_DIGITS = 18
 
 
